@@ -1487,14 +1487,15 @@ class ConcreteCtx:
         self.config = {}
 
     def int(self, name, lo=None, hi=None):
-        v = int(self.values[name])
+        # an input declared after the failing claim is absent from the model: any value will do
+        v = int(self.values[name]) if name in self.values else (lo if lo is not None else (hi if hi is not None else 0))
         if (lo is not None and v < lo) or (hi is not None and v > hi):
             raise PreconditionFailed(name)
         self.inputs[name] = v
         return v
 
     def real(self, name, lo=None, hi=None, lo_open=False, hi_open=False):
-        v = self.values[name]
+        v = self.values[name] if name in self.values else ((lo + hi) / 2 if (lo is not None and hi is not None) else (lo + 1 if lo is not None else (hi - 1 if hi is not None else 0.0)))
         f = float(Fraction(v)) if isinstance(v, str) else float(v)
         if lo is not None and (f <= lo if lo_open else f < lo):
             raise PreconditionFailed(name)
@@ -1504,7 +1505,7 @@ class ConcreteCtx:
         return f
 
     def bool(self, name):
-        v = bool(self.values[name])
+        v = bool(self.values.get(name, False))
         self.inputs[name] = v
         return v
 
